@@ -857,7 +857,29 @@ def rule_int_fields_typed(ctx: Ctx, rep: Report) -> None:
     rep.floor(rule, 6)
 
 
+def rule_input_index_bounded(ctx: Ctx, rep: Report) -> None:
+    """C19.input_index_bounded: `verify_input(prevouts, tx, i)` reads `tx.vin[i]` and
+    `prevouts[i]` with a number its caller chose. Both reads come after a
+    refusal of an i outside 0 .. len(tx.vin) - 1 and of a prevouts list of
+    another length than the inputs -- else an index past the end is an
+    IndexError out of the engine's front door."""
+    from sa.ranges import refusal_constraints, has, has_bound
+    rule = "C19.input_index_bounded"
+    fi = ctx.func("btclib.script.engine.verify_input")
+    pv, tx, i = fi.params()[0], fi.params()[1], fi.params()[2]
+    cs = refusal_constraints(ctx, fi)
+    lower = has_bound(cs, "<", 0, subject=i) is not None or has_bound(cs, "<=", -1, subject=i) is not None
+    upper = has(cs, i, ">=", f"len({tx}.vin)") is not None or has(cs, i, ">", f"len({tx}.vin) - 1") is not None or has(cs, i, ">=", f"len({pv})") is not None
+    rep.ob(rule, "verify_input:index", lower and upper, fi.where(), f"`{i}` is held to 0 .. len({tx}.vin) - 1" if lower and upper else
+           f"`{i}` is not held to the transaction's inputs before `{tx}.vin[{i}]` is read (refusals: {[c.show() for c in cs][:4]}): an index past the end is an IndexError")
+    same = has(cs, f"len({pv})", "!=", f"len({tx}.vin)") is not None or has(cs, f"len({tx}.vin)", "!=", f"len({pv})") is not None
+    rep.ob(rule, "verify_input:prevouts", same, fi.where(), "one previous output per input" if same else f"`{pv}` is not held to one entry per input: `{pv}[{i}]` of a shorter list is an IndexError")
+    rep.floor(rule, 2)
+
+
 RULES = [
+    ("C19.input_index_bounded", rule_input_index_bounded),
+
     ("C19.int_fields_typed", rule_int_fields_typed),
 
     ("C19.decoders_check_shapes", rule_decoders_check_shapes),
